@@ -1166,23 +1166,30 @@ def check_cache_invalidate(prog, rep):
                           'applied at every step)' % key_text(st)[:60], st.lineno)
     m2 = prog.module('tenpy/algorithms/tdvp.py')
     f2 = m2.func('TDVPEngine.prepare_evolve')
-    for br in ast.walk(f2):
-        if not (isinstance(br, ast.If) and any(
+    cfg2 = CFG(f2)
+
+    def is_clear_stmt(s_):
+        return isinstance(s_, ast.Expr) and isinstance(s_.value, ast.Call) and \
+            unparse(s_.value.func) == 'self.env.clear'
+
+    def is_clear(nd):
+        return nd.stmt is not None and is_clear_stmt(nd.stmt)
+    for st in stmts_of(f2):
+        if isinstance(st, (ast.If, ast.For, ast.While, ast.Try, ast.With)) or not any(
                 isinstance(c, ast.Call) and isinstance(c.func, ast.Attribute) and
-                c.func.attr == 'subspace_expansion' for c in ast.walk(br))):
+                c.func.attr == 'subspace_expansion' for c in ast.walk(st)):
             continue
         n += 1
-        ok = any(isinstance(st, ast.Expr) and isinstance(st.value, ast.Call) and
-                 unparse(st.value.func) == 'self.env.clear' for st in br.body)
+        # on every path through this expansion the environments are cleared, before or after it
+        ok = cfg2.dominators_like_before(st, is_clear) or _must_follow(cfg2, st, is_clear_stmt)
         rep.instance('CACHE-invalidate', {'function': 'TDVPEngine.prepare_evolve',
-                                          'branch': unparse(br.test)[:50],
-                                          'env_cleared_unconditionally': ok})
+                                          'expansion': key_text(st)[:60],
+                                          'env_cleared_on_every_path': ok})
         if not ok:
             rep.violation('CACHE-invalidate', m2, 'TDVPEngine.prepare_evolve',
                           'conditional-invalidate:env',
-                          'the branch `%s` changes psi through subspace_expansion (which re-gauges '
-                          'all tensors even when no bond grows) but `self.env.clear()` is not an '
-                          'unconditional statement of that branch: the next sweep uses stale '
-                          'environments that still fit' % unparse(br.test)[:50], br.lineno)
-        break
+                          '`%s` changes psi (subspace_expansion re-gauges all tensors even when no '
+                          'bond grows) but a path through it does not run `self.env.clear()`: the '
+                          'next sweep uses stale environments that still fit'
+                          % key_text(st)[:60], st.lineno)
     return n
